@@ -15,7 +15,10 @@ import strawberryfields as sf
 from strawberryfields import ops
 from strawberryfields import program_utils as pu
 
+from mc.core.chooser import install_default
 from mc.core.ctx import Res
+
+install_default()  # post-selected homodyne draws the unobserved conjugate quadrature from numpy.random
 
 ID = "C08"
 LEVEL = "model_checking"
